@@ -356,3 +356,69 @@ Example C16_stream_order :
   cols_of_stream 2 3 [1; 2; 3; 4; 5; 6; 7] = [[1; 4]; [2; 5]; [3; 6]] /\
   stream_rest 2 3 [1; 2; 3; 4; 5; 6; 7] = [7].
 Proof. split; reflexivity. Qed.
+
+(* ---------------------------------------------------------------- source frames without velocities / box entry *)
+(* The velocity entries of a configuration file are optional (no VELOCITY block in a .g96 file, no
+   velocity columns in an xyz snapshot: the readers return zeros), and so is the "Box:" entry of
+   an xyz comment line.  For EVERY such source file (cfile: velocities and box are options) the
+   file-level operation with the GROMACS special case in place writes exactly what modify_std
+   produces from the frame as read -- so every theorem above about modify_std (variance kT/m,
+   equipartition, zero momentum, dek/kin_new, positions/box/identities, reproducibility) holds for
+   the written genvel file of a source without velocities as well. *)
+Theorem C16_file_written_is_modify_std : forall e dflt_box mass c ek zm sig z,
+  length sig = c_npart c -> Forall (fun zc => length zc = c_npart c) z ->
+  (forall v, c_vel c = Some v -> col_len v = c_npart c) ->
+  modify_file e true dflt_box mass c ek zm sig z
+  = modify_std e mass (read_cfile dflt_box c) ek zm sig z.
+Proof. exact modify_file_complete. Qed.
+Print Assumptions C16_file_written_is_modify_std.
+
+(* one velocity line per atom is written, the reported kin_new is the kinetic energy of the
+   written velocities, positions and identities are those of the source file, the box is the
+   file's (or the engine's default where the file has none) *)
+Theorem C16_file_kin_new_is_written : forall e dflt_box mass c ek zm sig z,
+  length sig = c_npart c -> Forall (fun zc => length zc = c_npart c) z ->
+  (forall v, c_vel c = Some v -> col_len v = c_npart c) ->
+  let r := modify_file e true dflt_box mass c ek zm sig z in
+  r_kin_new r = kinetic mass (f_vel (r_frame r)) /\
+  Forall (fun vc => length vc = c_npart c) (f_vel (r_frame r)) /\
+  f_pos (r_frame r) = c_pos c /\ f_ids (r_frame r) = c_ids c /\
+  f_box (r_frame r) = (match c_box c with Some b => b | None => dflt_box end).
+Proof. exact modify_file_kin_written. Qed.
+Print Assumptions C16_file_kin_new_is_written.
+
+(* a source without velocities has kin_old = 0 (kinetic energy of the zeros read) and the change
+   is reported as infinite, for CP2K / TurtleMD / LAMMPS; GROMACS takes kin_old from the stored
+   system.ekin (C16_dek_consistent) *)
+Theorem C16_file_no_velocities_kin_old : forall e special dflt_box mass c ek zm sig z,
+  c_vel c = None -> e <> Gromacs ->
+  let r := modify_file e special dflt_box mass c ek zm sig z in
+  (exists k, r_kin_old r = Some k /\ k == 0) /\ r_dek r = None.
+Proof. exact modify_file_novel_kin_old. Qed.
+Print Assumptions C16_file_no_velocities_kin_old.
+
+(* the special case `if not txt["VELOCITY"]: txt["VELOCITY"] = txt["POSITION"]` of
+   GromacsEngine.modify_velocities is necessary: if its test never fires, a frame without VELOCITY
+   block gets an empty velocity block although a non-zero kinetic energy is reported *)
+Theorem C16_gromacs_no_velocity_block_special_case_needed :
+  exists mass c ek zm sig z,
+    c_vel c = None /\
+    let r := modify_file Gromacs false [] mass c ek zm sig z in
+    f_vel (r_frame r) = [[]; []; []] /\ ~ r_kin_new r == kinetic mass (f_vel (r_frame r)).
+Proof.
+  exists nv_mass, nv_file, (Some 1), (Some false), nv_sig, nv_z.
+  exact gromacs_novel_test_never_fires_refuted.
+Qed.
+Print Assumptions C16_gromacs_no_velocity_block_special_case_needed.
+
+Example C16_file_hypotheses_met :
+  c_vel nv_file = None /\ length nv_sig = c_npart nv_file /\
+  Forall (fun zc => length zc = c_npart nv_file) nv_z /\
+  (forall v, c_vel nv_file = Some v -> col_len v = c_npart nv_file) /\
+  let r := modify_file Gromacs true [] nv_mass nv_file (Some 1) (Some false) nv_sig nv_z in
+  Forall2 (Forall2 Qeq) (f_vel (r_frame r)) [[1; 1]; [0; 0]; [0; 0]] /\ r_kin_new r == 5 # 2 /\
+  r_dek r = Some (r_kin_new r - 1).
+Proof.
+  split; [reflexivity|]. split; [reflexivity|]. split; [repeat constructor|].
+  split; [discriminate|]. exact gromacs_novel_witness_special.
+Qed.
